@@ -28,6 +28,15 @@ SMALL_ALPHABET = ["a", "Z", "0", "-", "_", "/", ".", " ", "é", "\n"]
 PYPROJECT = "[tool.pytask.ini_options]\n"
 
 
+# entry names that are DIFFERENT strings but easy to identify by a lossy normalisation (unicode normal forms, compatibility
+# characters, case, surrounding white space, separator spellings): different entries must never share a location
+CONFUSABLE_ENTRIES = [
+    ["\u00e9", "e\u0301"], ["\u00c5", "\u212b", "A\u030a"], ["\ufb01", "fi"], ["\u2460", "1"], ["\uff21", "A"],
+    ["\uac00", "\u1100\u1161"], ["\u00f1", "n\u0303"], ["x", "x ", " x", "x\t", "x\n"], ["data", "Data", "DATA"],
+    ["\u00df", "ss", "\u1e9e"], ["a/b", "a\\b", "a//b", "a/./b", "a/b/"], ["\u03a9", "\u2126"], ["\u0130", "i\u0307", "i"],
+]
+
+
 def doc_ok(name: str) -> bool:
     return DOC.fullmatch(name) is not None
 
@@ -395,6 +404,8 @@ def random_trace(rng, tid: int, with_f5: bool):
     if rng.random() < 0.3:
         cats.append(rng.choice(["/abs", ".hidden", "é", ""]))      # rejected names take part too
     entries = rng.sample(["x", "X", "", "a/b", "é", "\n", "x" * 500, rand_unicode(rng, 6), rand_unicode(rng, 12), "y"], rng.randint(2, 5))
+    if rng.random() < 0.4:
+        entries = list(dict.fromkeys(entries + rng.choice(CONFUSABLE_ENTRIES)))
     values = [random_value(rng) for _ in range(rng.randint(3, 8))]
     sessions = []
     for _ in range(rng.randint(2, 4)):
@@ -424,6 +435,14 @@ def random_trace(rng, tid: int, with_f5: bool):
                                 {"k": "load", "cat": c, "e": e}]
                 sessions[k + 1].append({"k": "load", "cat": c, "e": e})
             ntw += 1
+    # a mutable value loaded several times in one session (the worker modifies every loaded object in place afterwards) and
+    # again in the next session
+    if rng.random() < 0.75:
+        values.append(rng.choice([[3, 1, 2], {"k": [1, 2]}, [random_value(rng, 2), [random_value(rng, 2)]], ([1], {"a": {}})]))
+        c, e = cps(rng.choice(cats[:3])), cps(rng.choice(entries))
+        k = rng.randrange(len(sessions) - 1)
+        sessions[k] += [{"k": "save", "cat": c, "e": e, "vi": len(values) - 1}] + [{"k": "load", "cat": c, "e": e}] * 3
+        sessions[k + 1][:0] = [{"k": "load", "cat": c, "e": e}] * 2
     return {"id": f"t{tid}", "cats": [cps(c) for c in cats], "values_b64": [b64(v) for v in values], "sessions": sessions, "f5": with_f5,
             "twins": ntw}
 
@@ -590,6 +609,7 @@ for _tag, _cat, _entry in {specs!r}:
         @task(id=tag, kwargs={{"x": CATS[tuple(cat)][_s(entry)]}})
         def consume(x, out: Annotated[Path, Product] = Path(__file__).parent / ("out_" + tag + ".txt")):
             _log({{"k": "cons", "tag": tag, "cat": cat, "entry": entry, "canon": canon(x)}})
+            scramble(x)      # this task's copy; other dependents must still receive the value as returned
             out.write_text("done")
     _make()
 '''
@@ -612,6 +632,8 @@ def random_e2e(rng, pid: int, f5: bool):
     if f5:
         cats = [base, f"q/../{base}"]
     entries = rng.sample(["x", "X", "", "a/b", "é", "val ue", "x" * 300, "ünï", "y.pkl", "0"], 2 if f5 else rng.randint(2, 4))
+    if not f5 and rng.random() < 0.35:
+        entries = rng.choice(CONFUSABLE_ENTRIES)[:3]
     pairs = [(c, e) for c in cats for e in entries]
     rng.shuffle(pairs)
     pairs = pairs[: (4 if f5 else rng.randint(3, 7))]
@@ -639,7 +661,8 @@ def run_e2e(ctx, base: Path, case: dict):
     cons1 = [[f"c1_{i}", c, e] for i, (c, e) in enumerate(pairs)]
     write_module(proj / "task_a.py", log, cats, producers=specA)
     write_module(proj / "task_b.py", log, cats, producers=specB, consumers=cons1[::2])
-    write_module(proj / "task_c.py", log, cats, consumers=cons1[1::2])
+    # every second entry has two dependents in the first build (task_b and task_c), each modifying its own copy
+    write_module(proj / "task_c.py", log, cats, consumers=cons1[1::2] + [[f"d1_{i}", c, e] for i, (c, e) in enumerate(pairs)][::2])
     builds, logs = [], []
 
     def build(i):
@@ -723,6 +746,10 @@ def campaign(ctx):
         proj2 = new_project(base, "names_random")
         check_names(ctx, proj2, rnames, list(dict.fromkeys(random_entry_names(rng, ctx.scale(8, 30)))),
                     [rng.randrange(1, 1 << 16) for _ in range(3)], "random", model_rows)
+        # 1c entry names that differ only by unicode normalisation / case / white space / separator spelling
+        proj3 = new_project(base, "names_confusable")
+        check_names(ctx, proj3, ["c", "C", "c-" + str(rng.randrange(100))], list(dict.fromkeys(sum(CONFUSABLE_ENTRIES, []))),
+                    [rng.randrange(1, 1 << 16) for _ in range(2)], "confusable", model_rows)
         compare_names_with_model(ctx, model_rows)
         # 2 save/load traces over sessions
         nt = ctx.scale(60, 600)
